@@ -122,7 +122,7 @@ pub fn run(tier: Tier) -> i32 {
     run.add("reference_selfchecks", selfcheck);
 
     // ---- (1) latitude: (YZ_even, YZ_odd) space, both orders, xz = 32768 (lon = 90/ni)
-    let stride: usize = if tier.thorough() { 1 } else { 257 };
+    let stride: usize = if tier.thorough() { 1 } else { 127 };
     let classes: Vec<AtomicU64> = (0..5).map(|_| AtomicU64::new(0)).collect();
     (0u32..131072).into_par_iter().for_each(|ye| {
         let mut local = [0u64; 5];
@@ -412,7 +412,7 @@ pub fn run(tier: Tier) -> i32 {
     let cov = json!({
         "evaluations": total,
         "distinct_nontrivial": classes[3].load(Ordering::Relaxed) + truth_decodable.load(Ordering::Relaxed),
-        "rule": "raw (YZ_even, YZ_odd) space both orders (thorough: all 2^34 pairs; quick: YZ_even full x YZ_odd stride 257 with rotating phase + all pairs within +-2 of every j boundary); NL at all reachable zone latitudes (hook and public read-out); truth lattice around NL transitions, zone boundaries, poles, equator, antimeridian x displacements x both orders; raw longitude space per NL band around every m boundary. Non-trivial = pairs the reference decodes to a position",
+        "rule": "raw (YZ_even, YZ_odd) space both orders (thorough: all 2^34 pairs; quick: YZ_even full x YZ_odd stride 127 with rotating phase + all pairs within +-2 of every j boundary); NL at all reachable zone latitudes (hook and public read-out); truth lattice around NL transitions, zone boundaries, poles, equator, antimeridian x displacements x both orders; raw longitude space per NL band around every m boundary. Non-trivial = pairs the reference decodes to a position",
         "exhaustive": tier.thorough(),
         "truth_latitudes": lats.len(),
         "nl_bands": bands.len(),
